@@ -1058,17 +1058,21 @@ def get_thread_bindings() -> IPersistentMap[Var, Any]:
 
 def push_thread_bindings(m: IPersistentMap[Var, Any]) -> None:
     """Push thread local bindings for the Var keys in m using the values."""
-    bindings = set()
+    pushed: list[Var] = []
+    try:
+        for var, val in m.items():
+            if not var.dynamic:
+                raise RuntimeException(
+                    "cannot set thread-local bindings for non-dynamic Var"
+                )
+            var.push_bindings(val)
+            pushed.append(var)
+    except BaseException:
+        for var in reversed(pushed):
+            var.pop_bindings()
+        raise
 
-    for var, val in m.items():
-        if not var.dynamic:
-            raise RuntimeException(
-                "cannot set thread-local bindings for non-dynamic Var"
-            )
-        var.push_bindings(val)
-        bindings.add(var)
-
-    _THREAD_BINDINGS.push_bindings(lset.set(bindings))
+    _THREAD_BINDINGS.push_bindings(lset.set(pushed))
 
 
 def pop_thread_bindings() -> None:
